@@ -1192,6 +1192,12 @@ func (dht *FullRT) bulkMessageSend(ctx context.Context, keys []peer.ID, fn func(
 	numPeers := len(dht.keyToPeerMap)
 	dht.kMapLk.RUnlock()
 
+	if numPeers == 0 {
+		// Nothing crawled yet (or every crawled peer was filtered out): there
+		// is nobody to send to, and the chunk size below divides by numPeers.
+		return kb.ErrLookupFailure
+	}
+
 	chunkSize := (len(sortedKeys) * dht.bucketSize * 2) / numPeers
 	if chunkSize == 0 {
 		chunkSize = 1
